@@ -29,7 +29,7 @@ Issue(p, what) == <<p, what>>
 
 \* verdicts are records [k |-> kind, c |-> code]
 V(k, c) == [k |-> k, c |-> c]
-WrapVerdict(x, h) == IF x = h THEN V("exec", h) ELSE IF x = 9 THEN V("unconv", 0) ELSE V("rej", x)
+WrapVerdict(x, h) == IF x = h THEN V("exec", h) ELSE IF x = -9 THEN V("unconv", 0) ELSE V("rej", x)
 
 \* In "self" mode (O.self = TRUE: exhaustive model checking, scenario generation) the observed
 \* decision IS the prescribed one; RejectedCode is the specification's own code for batches the
@@ -73,7 +73,7 @@ HeldIssues(strict, prev, obs, e, h) ==
       ELSE IF obs = 0 THEN {Issue("C17", <<"rejected batch still pending", e.id, h>>)} ELSE {})
   ELSE IF strict.k = "unconv" THEN
      (IF obs = h THEN {Issue("C13", <<"unconvertible conversion executed", e.id, h>>)}
-      ELSE IF obs = 0 /\ "DevConvertErrDropped" \notin Deviations
+      ELSE IF obs = 0 /\ ~("DevConvertErrDropped" \in Deviations /\ h < Act("V20"))
            THEN {Issue("C17", <<"unconvertible batch stays pending forever", e.id, h>>)} ELSE {})
   ELSE IF strict.c = -1 THEN
      (IF obs = h THEN {Issue("C03", <<"batch executed without sufficient funds", e.id, h>>)}
